@@ -77,7 +77,7 @@ def h_alias_ref(vf, node, fn, args):
 
 @reg('ALIAS', 'std::clone::Clone::clone', 'std::borrow::ToOwned::to_owned', 'ndarray::ArrayBase::to_owned',
      'ndarray::ArrayBase::view', 'ndarray::ArrayBase::into_owned', 'ndarray::ArrayBase::to_vec',
-     'burn::tensor::Tensor::require_grad', 'burn::tensor::Tensor::into_scalar', 'burn::tensor::Tensor::to_data',
+ 'burn::tensor::Tensor::into_scalar', 'burn::tensor::Tensor::to_data',
      'burn::tensor::Tensor::into_data', 'burn::tensor::TensorData::convert', 'burn::tensor::TensorData::as_slice', 'burn::tensor::TensorData::to_vec',
      'burn::tensor::TensorData::into_vec', 'burn::tensor::TensorData::as_mut_slice', 'core::slice::to_vec', 'std::iter::Iterator::cloned', 'std::iter::Iterator::copied',
      'ndarray::ArrayBase::into_dimensionality', 'std::hint::must_use', 'std::sync::Arc::new', 'std::boxed::Box::new',
@@ -105,6 +105,16 @@ def h_detach(vf, node, fn, args):
     v = vf.deref(args[0])
     if getattr(vf, 'graph_cuts_visible', False):
         return T.app(fn.get('name', 'detach'), tt(vf, v))
+    return v
+
+
+@reg('AUTODIFF', 'burn::tensor::Tensor::require_grad')
+def h_require_grad(vf, node, fn, args):
+    """value-preserving; creates a new autodiff LEAF (identity matters for Tensor::grad), visible on request"""
+    v = vf.deref(args[0])
+    if getattr(vf, 'graph_cuts_visible', False):
+        vf.uid += 1
+        return T.app('leaf#%d' % vf.uid, tt(vf, v))
     return v
 
 
